@@ -332,7 +332,9 @@ func serFields(fs []parse.Field) string {
 	ps := make([]string, len(fs))
 	for i, f := range fs {
 		ps[i] = hx.HexS(f.Key)
-		if f.Order == "fixed" {
+		if f.Order != "fixed" && f.Order != "first" && f.Order != "alpha" && f.Order != "num" {
+			ps[i] += "@!" // unknown order name
+		} else if f.Order == "fixed" {
 			if len(f.Fixed) == 0 {
 				ps[i] += "@-"
 			} else {
@@ -478,15 +480,23 @@ func runCase(id int, kind, expr string, rs *resSpec, projTexts []string, extraTa
 		hx.Printf("obs %d new=%s tnew=%s\n", id, newErrTag(err), newErrTagText(err))
 		return true
 	}
+	// a history of Parse calls on one parser and one Filter: a rejected expression is recorded
+	// and the caller carries on with the same Filter (falls back / corrects the typo)
 	var pp benchproc.ProjectionParser
 	var projs []*benchproc.Projection
-	for _, t := range projTexts {
-		p, err := pp.Parse(t, f)
-		if err != nil {
-			hx.Printf("obs %d new=ok tnew=ok perr=%s\n", id, projErrTag(err))
-			return true
+	perrS := "none"
+	if len(projTexts) > 0 {
+		tags := make([]string, len(projTexts))
+		for i, t := range projTexts {
+			p, err := pp.Parse(t, f)
+			if err != nil {
+				tags[i] = projErrTag(err)
+				continue
+			}
+			tags[i] = "none"
+			projs = append(projs, p)
 		}
-		projs = append(projs, p)
+		perrS = strings.Join(tags, ",")
 	}
 
 	glue := "ok"
@@ -568,8 +578,8 @@ func runCase(id int, kind, expr string, rs *resSpec, projTexts []string, extraTa
 	}
 	// the t* fields are the same real observations once more: the driver computes them a second
 	// time from the expression TEXT (parser model of C07 composed with the evaluator model)
-	hx.Printf("obs %d new=ok tnew=ok perr=none pv=%s n=%d test=%s oob=%s all=%s any=%s apply=%s flag=%s fapply=%s fflag=%s omiss=0 lmiss=0 glue=%s ttest=%s tall=%s tany=%s tapply=%s tflag=%s htest=%s\n",
-		id, pvS, n, test, oob, b01(all), b01(any), idxList(r1.Values), b01(flag1), idxList(r2.Values), b01(flag2), glue,
+	hx.Printf("obs %d new=ok tnew=ok perr=%s pv=%s n=%d test=%s oob=%s all=%s any=%s apply=%s flag=%s fapply=%s fflag=%s omiss=0 lmiss=0 glue=%s ttest=%s tall=%s tany=%s tapply=%s tflag=%s htest=%s\n",
+		id, perrS, pvS, n, test, oob, b01(all), b01(any), idxList(r1.Values), b01(flag1), idxList(r2.Values), b01(flag2), glue,
 		test, b01(all), b01(any), idxList(r2.Values), b01(flag2), htest)
 	// what the property speaks about; for n = 0 All/Any/flag are a boundary (see notes/C06.md)
 	allS, anyS, flagS := "n0", "n0", "n0"
@@ -820,6 +830,11 @@ func genProj(r *hx.Rand, rs *resSpec) string {
 		key := hx.Pick(r, projKeys)
 		if r.Chance(1, 50) {
 			key = ".unit"
+		}
+		if i > 0 && r.Chance(1, 8) {
+			// a field the projection compiler rejects, AFTER other fields of the expression
+			fs = append(fs, hx.Pick(r, []string{".unit", "goos@bogus", ".config@(a b)", "/size@fixed", `""`, "/k@zz"}))
+			continue
 		}
 		f := word(r, key, false)
 		switch {
